@@ -585,7 +585,10 @@ func (s *Server) cmdNearby(msg *Message) (res resp.Value, err error) {
 		}
 		circle, ok := sargs.obj.(*geojson.Circle)
 		if !ok {
-			// the area is no longer the point/radius circle (e.g. BUFFER)
+			// the area is no longer the point/radius circle
+			if !sargs.hasbuffer {
+				return NOMessage, errInvalidArgument("clipby")
+			}
 			return NOMessage, errInvalidArgument("buffer")
 		}
 		maxDist := circle.Meters()
